@@ -330,7 +330,10 @@ func c10r3(c *core.Ctx) {
 	}
 	stored := store.Val
 	changed := core.CmpFact(func(x, y ssa.Value) (bool, bool) {
-		isCur := func(v ssa.Value) bool { b, ok := core.FieldLoad(v, tChar, "Value"); return ok && b == ssa.Value(f.Params[0]) }
+		isCur := func(v ssa.Value) bool {
+			b, ok := core.FieldLoad(v, tChar, "Value")
+			return ok && b == ssa.Value(f.Params[0])
+		}
 		if (isCur(x) && y == stored) || (isCur(y) && x == stored) {
 			return false, true
 		}
@@ -435,7 +438,9 @@ func c10r4(c *core.Ctx) {
 	// who subscribes
 	n := 0
 	for _, f := range libFuncs(p) {
-		for _, s := range core.FindCalls(f, func(i ssa.Instruction) bool { return core.IsInvoke(i, qSession, "Subscribe") || core.IsInvoke(i, qSession, "Unsubscribe") }) {
+		for _, s := range core.FindCalls(f, func(i ssa.Instruction) bool {
+			return core.IsInvoke(i, qSession, "Subscribe") || core.IsInvoke(i, qSession, "Unsubscribe")
+		}) {
 			n++
 			req := paramOfType(f, "net/http.Request")
 			ok := req != nil && sessionOfRequest(core.Receiver(s), req) && cn(f) == "Characteristics"
